@@ -131,12 +131,18 @@ def check_rules(facts, rep):
     for bi, t, d in sws:
         idx = [x for x in walk(d) if x[0] == "index"]
         sh = [x for x in walk(d) if x[0] == "bin" and x[1] == "Shr"]
-        if len(idx) != 1 or len(sh) != 1:
+        if len(idx) != 1 or not sh:
             seen["?"] = show(d)
             continue
-        which = "PkzipCrc32" if any(x[0] == "variant" and x[2] == "PkzipCrc32" for x in walk(sh[0])) else "InfoZipMsdosTime" if any(x[0] == "variant" and x[2] == "InfoZipMsdosTime" for x in walk(sh[0])) else "?"
-        seen[which] = (idx[0][2][2] if idx[0][2][0] == "const" else None, sh[0][3][2] if sh[0][3][0] == "const" else None, d[1])
-    good = seen.get("PkzipCrc32") == (11, 24, "Ne") and seen.get("InfoZipMsdosTime") == (11, 8, "Ne") and len(seen) == 2
+        # one comparison per validator kind, or one comparison of a value selected per kind (phi of the two shifts)
+        for s1 in sh:
+            which = "PkzipCrc32" if any(x[0] == "variant" and x[2] == "PkzipCrc32" for x in walk(s1)) else "InfoZipMsdosTime" if any(x[0] == "variant" and x[2] == "InfoZipMsdosTime" for x in walk(s1)) else "?"
+            val = (idx[0][2][2] if idx[0][2][0] == "const" else None, s1[3][2] if s1[3][0] == "const" else None)
+            if which in seen and seen[which] != val:
+                seen["?"] = show(d)
+            seen[which] = val
+    # (the direction of the comparison is decided by the mismatch=>None rule below)
+    good = seen.get("PkzipCrc32") == (11, 24) and seen.get("InfoZipMsdosTime") == (11, 8) and len(seen) == 2
     ok &= rep.check(good, rule, "check-byte", where(v, v.span), "byte 11 compared with crc32 >> 24 (PKZIP) resp. time >> 8 (Info-ZIP); nothing else is compared",
                     "header check compares %s; the traditional scheme checks only header byte 11 against the high byte of the CRC (or of the DOS time when bit 3 is set)" % seen)
     ps = paths(v, max_loop=1)
@@ -165,7 +171,10 @@ def sym_rules(facts, rep):
         ok &= rep.check(good, rule, nm, where(f, f.span), "%s: keystream byte taken first, XOR, keys updated with the PLAINTEXT byte" % nm,
                         "%s no longer (takes the keystream byte before the update and) feeds the plaintext byte to the key schedule" % nm)
     d = facts.one(r"^zipcrypto::ZipCryptoKeys::derive$")
-    good = bool(calls_matching(d, r"ZipCryptoKeys::new$")) and bool(calls_matching(d, r"ZipCryptoKeys::update$")) and len(d.loops()) == 1
+    closures = [g for g in facts.fns if g.path.startswith(d.path + "::{closure")]
+    looped = bool(calls_matching(d, r"ZipCryptoKeys::update$")) and len(d.loops()) == 1
+    folded = any(calls_matching(g, r"ZipCryptoKeys::update$") for g in closures) and bool(calls_matching(d, r"Iterator::(for_each|fold)$")) and not d.loops()
+    good = bool(calls_matching(d, r"ZipCryptoKeys::new$")) and (looped or folded)
     ok &= rep.check(good, rule, "derive", where(d, d.span), "keys = fold(update) over the password from the initial keys", "derive no longer folds update over the password bytes")
     nw = facts.one(r"^zipcrypto::ZipCryptoReader::<R>::new$")
     exn = Ex(nw)
